@@ -888,14 +888,17 @@ pub open spec fn fin_before<K, N, E>(r: Seq<Edge<K, N, E>>, upto: int, y: Node<K
 pub open spec fn fin_ok<K, N, E>(x: Node<K, N, E>, px: int, r: Seq<Edge<K, N, E>>, acc: spec_fn(Edge<K, N, E>) -> bool, adj: spec_fn(Node<K, N, E>) -> Seq<Edge<K, N, E>>) -> bool {
     forall|i: int| 0 <= i < adj(x).len() && acc(#[trigger] adj(x)[i]) ==> fin_before(r, px, adj(x)[i].1) || reach0(adj(x)[i].1, x.k(), acc, adj)
 }
+#[verifier::opaque]
 pub open spec fn fin_upto<K, N, E>(x: Node<K, N, E>, m: int, px: int, r: Seq<Edge<K, N, E>>, acc: spec_fn(Edge<K, N, E>) -> bool, adj: spec_fn(Node<K, N, E>) -> Seq<Edge<K, N, E>>) -> bool {
     forall|i: int| 0 <= i < m && i < adj(x).len() && acc(#[trigger] adj(x)[i]) ==> fin_before(r, px, adj(x)[i].1) || reach0(adj(x)[i].1, x.k(), acc, adj)
 }
 // every node recorded from index `from` on satisfies the condition at its own position
+#[verifier::opaque]
 pub open spec fn fin_all<K, N, E>(r: Seq<Edge<K, N, E>>, from: int, acc: spec_fn(Edge<K, N, E>) -> bool, adj: spec_fn(Node<K, N, E>) -> Seq<Edge<K, N, E>>) -> bool {
     forall|i: int| from <= i < r.len() ==> fin_ok((#[trigger] r[i]).1, i, r, acc, adj)
 }
 // every visited node that is not yet recorded (the node being expanded and its ancestors) reaches `top`
+#[verifier::opaque]
 pub open spec fn pend_reach<K, N, E>(vis: Set<K>, r: Seq<Edge<K, N, E>>, top: Node<K, N, E>, acc: spec_fn(Edge<K, N, E>) -> bool, adj: spec_fn(Node<K, N, E>) -> Seq<Edge<K, N, E>>) -> bool {
     forall|n: Node<K, N, E>| #[trigger] universe::<K, N, E>().contains(n) && vis.contains(n.k()) && !fin_before(r, r.len() as int, n) ==> reach0(n, top.k(), acc, adj)
 }
@@ -927,6 +930,7 @@ pub proof fn lemma_fin_step<K, N, E>(r0: Seq<Edge<K, N, E>>, r2: Seq<Edge<K, N, 
         fin_all(r0, a, acc, adj), fin_all(r2, r0.len() as int, acc, adj), fin_ok(e.1, r2.len() as int, r2, acc, adj),
     ensures fin_all(r2.push(e), a, acc, adj), fin_before(r2.push(e), r2.len() as int + 1, e.1)
 {
+    reveal(fin_all);
     let r3 = r2.push(e);
     assert(r3.take(r2.len() as int) =~= r2);
     assert(r3.take(r0.len() as int) =~= r0);
@@ -949,6 +953,7 @@ pub proof fn lemma_pend_reach_call<K, N, E>(v0: Set<K>, r0: Seq<Edge<K, N, E>>, 
     requires graph_ok(adj), pend_reach(v0, r0, node, acc, adj), e.0 == node, universe::<K, N, E>().contains(node), in_adj(e, adj), acc(e), universe::<K, N, E>().contains(e.1),
     ensures pend_reach(v0.insert(e.1.k()), r0, e.1, acc, adj)
 {
+    reveal(pend_reach);
     assert forall|n: Node<K, N, E>| #[trigger] universe::<K, N, E>().contains(n) && v0.insert(e.1.k()).contains(n.k()) && !fin_before(r0, r0.len() as int, n) implies reach0(n, e.1.k(), acc, adj) by {
         if n.k() != e.1.k() {
             assert(reach0(n, node.k(), acc, adj));
@@ -963,6 +968,7 @@ pub proof fn lemma_pend_reach_back<K, N, E>(v0: Set<K>, r0: Seq<Edge<K, N, E>>, 
         forall|i: int| r0.len() <= i < r2.len() ==> universe::<K, N, E>().contains((#[trigger] r2[i]).1),
     ensures pend_reach(v2, r2.push(e), node, acc, adj)
 {
+    reveal(pend_reach);
     reveal(ext);
     let r3 = r2.push(e);
     assert forall|n: Node<K, N, E>| #[trigger] universe::<K, N, E>().contains(n) && v2.contains(n.k()) && !fin_before(r3, r3.len() as int, n) implies reach0(n, node.k(), acc, adj) by {
@@ -987,6 +993,7 @@ pub proof fn lemma_fin_upto_mono<K, N, E>(x: Node<K, N, E>, m: int, p: int, r: S
     requires r.len() <= r2.len(), r2.take(r.len() as int) == r, p <= p2, fin_upto(x, m, p, r, acc, adj)
     ensures fin_upto(x, m, p2, r2, acc, adj)
 {
+    reveal(fin_upto);
     assert forall|i: int| 0 <= i < m && i < adj(x).len() && acc(#[trigger] adj(x)[i]) implies fin_before(r2, p2, adj(x)[i].1) || reach0(adj(x)[i].1, x.k(), acc, adj) by {
         if fin_before(r, p, adj(x)[i].1) {
             lemma_fin_before_mono(r, r2, p, adj(x)[i].1);
@@ -1006,3 +1013,40 @@ pub proof fn lemma_pedges_targets_uni<K, N, E>(r: Seq<Edge<K, N, E>>, from: int,
         assert(universe::<K, N, E>().contains(adj(e.0)[j].1));
     }
 }
+
+pub proof fn lemma_fin_init<K, N, E>(x: Node<K, N, E>, r: Seq<Edge<K, N, E>>, acc: spec_fn(Edge<K, N, E>) -> bool, adj: spec_fn(Node<K, N, E>) -> Seq<Edge<K, N, E>>)
+    ensures fin_upto(x, 0, r.len() as int, r, acc, adj), fin_all(r, r.len() as int, acc, adj)
+{
+    reveal(fin_upto); reveal(fin_all);
+}
+// the next adjacency entry is settled: it is not accepted, or its target is recorded already, or its target reaches x
+pub proof fn lemma_fin_upto_next<K, N, E>(x: Node<K, N, E>, m: int, px: int, r: Seq<Edge<K, N, E>>, acc: spec_fn(Edge<K, N, E>) -> bool, adj: spec_fn(Node<K, N, E>) -> Seq<Edge<K, N, E>>)
+    requires fin_upto(x, m, px, r, acc, adj), 0 <= m < adj(x).len(),
+        acc(adj(x)[m]) ==> fin_before(r, px, adj(x)[m].1) || reach0(adj(x)[m].1, x.k(), acc, adj),
+    ensures fin_upto(x, m + 1, px, r, acc, adj)
+{
+    reveal(fin_upto);
+}
+pub proof fn lemma_fin_upto_done<K, N, E>(x: Node<K, N, E>, m: int, px: int, r: Seq<Edge<K, N, E>>, acc: spec_fn(Edge<K, N, E>) -> bool, adj: spec_fn(Node<K, N, E>) -> Seq<Edge<K, N, E>>)
+    requires fin_upto(x, m, px, r, acc, adj), m >= adj(x).len()
+    ensures fin_ok(x, px, r, acc, adj)
+{
+    reveal(fin_upto);
+}
+// a visited node is recorded already or reaches the node being expanded
+pub proof fn lemma_pend_visited<K, N, E>(vis: Set<K>, r: Seq<Edge<K, N, E>>, top: Node<K, N, E>, n: Node<K, N, E>, acc: spec_fn(Edge<K, N, E>) -> bool, adj: spec_fn(Node<K, N, E>) -> Seq<Edge<K, N, E>>)
+    requires pend_reach(vis, r, top, acc, adj), universe::<K, N, E>().contains(n), vis.contains(n.k())
+    ensures fin_before(r, r.len() as int, n) || reach0(n, top.k(), acc, adj)
+{
+    reveal(pend_reach);
+}
+pub proof fn lemma_pend_init<K, N, E>(vis: Set<K>, r: Seq<Edge<K, N, E>>, root: Node<K, N, E>, acc: spec_fn(Edge<K, N, E>) -> bool, adj: spec_fn(Node<K, N, E>) -> Seq<Edge<K, N, E>>)
+    requires forall|n: Node<K, N, E>| #[trigger] universe::<K, N, E>().contains(n) && vis.contains(n.k()) ==> n == root
+    ensures pend_reach(vis, r, root, acc, adj)
+{
+    reveal(pend_reach);
+}
+pub proof fn lemma_postorder_ok<K, N, E>(r: Seq<Edge<K, N, E>>, root: Node<K, N, E>, acc: spec_fn(Edge<K, N, E>) -> bool, adj: spec_fn(Node<K, N, E>) -> Seq<Edge<K, N, E>>)
+    requires fin_all(r, 0, acc, adj), fin_ok(root, r.len() as int, r, acc, adj)
+    ensures postorder_ok(r, root, acc, adj)
+{}
